@@ -255,6 +255,9 @@ func c10GenOp(h *c08hist) (ref.Instr, bool) {
 			shape = RandShape(r, 4, 6, 2)
 		}
 		if r.Intn(5) == 0 {
+			if r.Intn(3) == 0 { // identity matrices of a few orders, again and again: every call returns a tensor of its own
+				return ref.Instr{Op: "eye", Dim: 1 + r.Intn(3), Tracked: r.Intn(3) == 0}, true
+			}
 			return ref.Instr{Op: "full", Shape: shape, F: []float64{0.5 + r.Float64(), 0, 1}[r.Intn(3)], Tracked: r.Intn(3) > 0}, true
 		}
 		t := Shuffled(r, Unique(r, shape, 0.2, 1.5))
